@@ -22,7 +22,9 @@ TrRet == /\ IsEvent("iret") /\ Consume /\ cur.op = Ev.op
               [] Ev.op = "release" -> Ev.res = 1 /\ units' = units + 1
               [] Ev.op = "shmlock" -> Ev.res = 1 /\ units > 0 /\ units' = units - 1
               [] Ev.op = "shmunlock" -> Ev.res = 1 /\ units' = units + 1
-              [] Ev.op \in {"semnew", "shmnew", "semfree", "shmfree", "semopen", "semcreate", "shmopen"} -> Ev.res = 1 /\ UNCHANGED units               \* creating / opening IPC objects still succeeds
+              [] Ev.op = "shmopen" -> Ev.res = 1 /\ Ev.val = 3 /\ UNCHANGED units      \* opened - and it is the segment that was there: same bytes, name left in place by the non-owner's free
+              [] Ev.op = "semopen" -> Ev.res = 1 /\ Ev.val = 1 /\ UNCHANGED units      \* opened - and it is the semaphore that was there
+              [] Ev.op \in {"semnew", "shmnew", "semfree", "shmfree", "semcreate"} -> Ev.res = 1 /\ UNCHANGED units               \* creating / opening IPC objects still succeeds
               [] OTHER -> FALSE
          /\ cur' = NoCall /\ nint' = 0
 (* a helper thread gives a unit back (semaphore release / segment unlock) while the thread under test is blocked *)
